@@ -491,6 +491,27 @@ def _tmpl_build(rng):
     inp = {"script": script, "values": [{k: G.enc(v) for k, v in vs.items()} for vs in valsets]}
     if whole and rng.random() < 0.5:
         inp["as_ndarray"] = True
+    if special == "param-array-as-argument":
+        # a sub-class of its own: every entry of the passed array (written numbers and the values given to its parameters) is of a NARROWER
+        # kind than the declared element type (a complex array with real values only, a float array with integers only)
+        def narrower(ty, vs):
+            ks = set()
+            if arrays:
+                for row in arrays[0][2]:
+                    for c in row:
+                        v = vs.get(c[1]) if c[0] == "par" else G.ev(c, {})[0]
+                        ks.add("complex" if isinstance(v, complex) else "int" if isinstance(v, int) and not isinstance(v, bool) else "float")
+            else:
+                for row in vs[list(whole)[0]]:
+                    for v in row:
+                        ks.add("complex" if isinstance(v, complex) else "int" if isinstance(v, int) and not isinstance(v, bool) else "float")
+            return (ty == "complex" and "complex" not in ks) or (ty == "float" and ks == {"int"})
+        try:
+            ty0 = arrays[0][1] if arrays else whole[list(whole)[0]][2]
+            if any(narrower(ty0, vs) for vs in valsets):
+                feats = {"param-array-as-argument/value-kinds-narrower-than-declared-type"}
+        except Exception:                        # noqa: classification only
+            pass
     return ("+".join(sorted(feats)) or "plain", inp)
 
 
